@@ -625,11 +625,13 @@ pub fn run_log_case(backend: &str, seed: u64, rep: &mut Report, thorough: bool, 
                     let trial = root.join("ltrial"); let _ = std::fs::remove_dir_all(&trial); copy_dir(base, &trial)?;
                     std::fs::write(trial.join(&name), &now[..b.len() + cut])?;
                     rep.case(&format!("fs:log:ApplyBatch:torn:{}", cut % 97), true);
-                    check(rep, &trial, "torn-append", json!({"appended": appended, "kept": cut}));
-                    let left = std::fs::metadata(trial.join(&name)).map(|m| m.len() as usize).unwrap_or(0);
                     corr.ops.push(format!("crash scan hex={}", hex::encode(&now[4..b.len() + cut])));
-                    // records as read by a fresh instance
+                    // records as read by a fresh instance and what opening did to the file (measured before the
+                    // oracle below appends its own record)
                     let r = rt(); let n = r.block_on(async { match open_log(&trial, backend, account, folder).await { Ok(l) => l.tree().len() as i64, Err(_) => -1 } }); r.shutdown_timeout(std::time::Duration::from_secs(10));
+                    let left = std::fs::metadata(trial.join(&name)).map(|m| m.len() as usize).unwrap_or(0);
+                    std::fs::write(trial.join(&name), &now[..b.len() + cut])?;
+                    check(rep, &trial, "torn-append", json!({"appended": appended, "kept": cut}));
                     if left > b.len() + cut { rep.spec_fail("c13-torn-log-grew-on-open:ApplyBatch:folder-log", json!({"case_seed": seed, "kept": cut, "length_before_open": b.len() + cut, "length_after_open": left}), "opening a log with a torn tail made the file longer (padding) instead of discarding the partial record"); }
                     corr.imp.push(format!("records={} cut={}", n, (b.len() + cut) as i64 - left as i64));
                 }
